@@ -30,6 +30,12 @@
 (*       flusher (its own query failed), reconnect's Session.refreshRing() *)
 (*       waits for the flusher itself.  FALSE = reconnect runs in its own  *)
 (*       goroutine.                                                        *)
+(*   Defect_EvStopUnderLock  eventDebouncer.stop() takes e.mu and keeps it  *)
+(*       over the quit hand-off; a flusher that left its select by the     *)
+(*       timer case waits for e.mu and never takes the hand-off.           *)
+(*   Defect_EvSyncCallback  the flusher runs the event handler itself      *)
+(*       under e.mu: debounce and stop (Session.Close) wait for a handler  *)
+(*       that may wait for schema agreement or an unreachable node.        *)
 (*   Defect_ReconnectWindow  reconnect() looks at `closing` only before it *)
 (*       dials: a connection it installs after controlConn.close() ran is  *)
 (*       never closed.  FALSE = it looks again after installing and closes *)
@@ -52,6 +58,9 @@ CONSTANTS
   OnlyDebouncer,  \* BOOLEAN: the closers call refreshDebouncer.stop() directly (debouncer in isolation)
   MaxCtlFail,     \* control-connection failures noticed by the refresh flusher's own query
   Defect_StopHandshake, Defect_HeartbeatStart, Defect_LatePool, Defect_ReconnectInline, Defect_ReconnectWindow,
+  Defect_EvStopUnderLock,  \* TRUE: eventDebouncer.stop() takes e.mu before the quit hand-off (the flusher needs e.mu to flush)
+  Defect_EvSyncCallback,   \* TRUE: the flusher runs the event handler itself, under e.mu, instead of on its own goroutine
+  EvEager,                 \* TRUE: the flusher takes a free e.mu in the same step as the timer case (no hook separates them)
   Mut             \* "none" or a named mutation (model self-test)
 
 HB == "hb"   \* the heartbeat goroutine as a caller of refreshRing()
@@ -66,6 +75,9 @@ VARIABLES
   nDebounce,
   \* event debouncers
   evPc, evTimer, evQuit, evCb, nEvents,
+  evMu,      \* e.mu of each event debouncer: "free" | "deb" (debounce) | "fl" (flusher) | "stop"
+  evQ,       \* goroutines parked on e.mu, first come first served: sequence over {"fl", "stop"}
+  debPc,     \* the goroutine delivering an event to the node debouncer: "idle" | "locked"
   \* control connection
   ccState, hbPc, ccConnOpen, nProbeFail, reconn, rcPc, nCtlFail,
   \* session
@@ -74,11 +86,11 @@ VARIABLES
   qres
 
 vars == <<rdStopped, rdHasBc, rdBc, rdNow, rdTimer, rdQuit, rdDone, flPc, flCur, reqPc, nDebounce,
-          evPc, evTimer, evQuit, evCb, nEvents, ccState, hbPc, ccConnOpen, nProbeFail, reconn, rcPc, nCtlFail,
+          evPc, evTimer, evQuit, evCb, nEvents, evMu, evQ, debPc, ccState, hbPc, ccConnOpen, nProbeFail, reconn, rcPc, nCtlFail,
           isClosing, isClosed, poolsClosed, tracked, stray, ctxCancelled, kpc, nAddHost, panicked, qres>>
 
 rdVars == <<rdStopped, rdHasBc, rdBc, rdNow, rdTimer, rdQuit, rdDone, flPc, flCur, reqPc, nDebounce>>
-evVars == <<evPc, evTimer, evQuit, evCb, nEvents>>
+evVars == <<evPc, evTimer, evQuit, evCb, nEvents, evMu, evQ, debPc>>
 ccVars == <<ccState, hbPc, ccConnOpen, nProbeFail, reconn, rcPc, nCtlFail>>
 seVars == <<isClosing, isClosed, poolsClosed, tracked, stray, ctxCancelled, kpc, nAddHost, panicked, qres>>
 
@@ -88,6 +100,7 @@ Init ==
   /\ reqPc = [r \in Reqs |-> "idle"] /\ nDebounce = 0
   /\ evPc = [e \in EvDeb |-> "select"] /\ evTimer = [e \in EvDeb |-> "off"]
   /\ evQuit = [e \in EvDeb |-> "open"] /\ evCb = 0 /\ nEvents = 0
+  /\ evMu = [e \in EvDeb |-> "free"] /\ evQ = [e \in EvDeb |-> <<>>] /\ debPc = "idle"
   /\ ccState = "starting" /\ hbPc = IF WithControl THEN "spawned" ELSE "exited"
   /\ ccConnOpen = WithControl /\ nProbeFail = 0 /\ reconn = FALSE /\ rcPc = "idle" /\ nCtlFail = 0
   /\ isClosing = FALSE /\ isClosed = FALSE /\ poolsClosed = FALSE /\ tracked = 1 /\ stray = 0
@@ -182,33 +195,84 @@ FlRefreshDone ==
   /\ UNCHANGED <<evVars, ccVars, seVars>>
 
 (* ======================= event debouncers ================================== *)
-EvArrive ==
-  /\ nEvents < MaxEvents
+\* e.mu: Unlock hands the mutex to the goroutine parked longest (sync.Mutex wakes its waiters first come first served)
+Release(e) ==
+  IF evQ[e] = <<>>
+  THEN evMu' = [evMu EXCEPT ![e] = "free"] /\ UNCHANGED evQ
+  ELSE evMu' = [evMu EXCEPT ![e] = Head(evQ[e])] /\ evQ' = [evQ EXCEPT ![e] = Tail(@)]
+
+\* debounce(frame): a critical section under e.mu (re-arms the timer first, appends the frame; a full buffer is
+\* reported to the logger inside it)
+EvDebLock ==
+  /\ debPc = "idle" /\ nEvents < MaxEvents
+  /\ evMu["node"] = "free"
+  /\ evMu' = [evMu EXCEPT !["node"] = "deb"]
+  /\ debPc' = "locked"
   /\ nEvents' = nEvents + 1
-  /\ evTimer' = [evTimer EXCEPT !["node"] = IF @ = "fired" THEN @ ELSE "armed"]
-  /\ UNCHANGED <<evPc, evQuit, evCb>>
+  /\ evTimer' = [evTimer EXCEPT !["node"] = IF @ = "fired" THEN @ ELSE "armed"]   \* timer.Reset comes first
+  /\ UNCHANGED <<evPc, evQuit, evCb, evQ>>
+  /\ UNCHANGED <<rdVars, ccVars, seVars>>
+
+EvDebUnlock ==
+  /\ debPc = "locked"
+  /\ Release("node")
+  /\ debPc' = "idle"
+  /\ UNCHANGED <<evPc, evTimer, evQuit, evCb, nEvents>>
   /\ UNCHANGED <<rdVars, ccVars, seVars>>
 
 EvTimerFire(e) ==
   /\ evTimer[e] = "armed"
   /\ evTimer' = [evTimer EXCEPT ![e] = "fired"]
-  /\ UNCHANGED <<evPc, evQuit, evCb, nEvents>>
+  /\ UNCHANGED <<evPc, evQuit, evCb, nEvents, evMu, evQ, debPc>>
   /\ UNCHANGED <<rdVars, ccVars, seVars>>
 
-\* the flusher takes the timer case and hands the events to a callback goroutine
-EvFlush(e) ==
+\* the flusher leaves its select by the timer case ...
+EvSelectTimer(e) ==
   /\ evPc[e] = "select" /\ evTimer[e] = "fired"
   /\ evTimer' = [evTimer EXCEPT ![e] = "off"]
-  /\ evCb' = evCb + 1
-  /\ UNCHANGED <<evPc, evQuit, nEvents>>
+  /\ evPc' = [evPc EXCEPT ![e] = "woke"]
+  /\ UNCHANGED <<evQuit, evCb, nEvents, evMu, evQ, debPc>>
   /\ UNCHANGED <<rdVars, ccVars, seVars>>
 
-\* handleNodeEvent: a topology event asks for a debounced ring refresh
+\* ... and calls e.mu.Lock(): takes a free mutex or parks behind whoever holds it
+EvFlLock(e) ==
+  /\ evPc[e] = "woke"
+  /\ IF evMu[e] = "free"
+     THEN evMu' = [evMu EXCEPT ![e] = "fl"] /\ UNCHANGED evQ
+     ELSE evQ' = [evQ EXCEPT ![e] = Append(@, "fl")] /\ UNCHANGED evMu
+  /\ evPc' = [evPc EXCEPT ![e] = "locking"]
+  /\ UNCHANGED <<evTimer, evQuit, evCb, nEvents, debPc>>
+  /\ UNCHANGED <<rdVars, ccVars, seVars>>
+
+\* flush under e.mu: the events go to a handler goroutine (or, Defect_EvSyncCallback, the handler runs right here)
+EvFlushLocked(e) ==
+  /\ evPc[e] = "locking" /\ evMu[e] = "fl"
+  /\ IF Defect_EvSyncCallback
+     THEN /\ evPc' = [evPc EXCEPT ![e] = "incallback"]
+          /\ UNCHANGED <<evMu, evQ, evCb>>
+     ELSE /\ evPc' = [evPc EXCEPT ![e] = "select"]
+          /\ Release(e)
+          /\ evCb' = evCb + 1
+  /\ UNCHANGED <<evTimer, evQuit, nEvents, debPc>>
+  /\ UNCHANGED <<rdVars, ccVars, seVars>>
+
+\* (Defect_EvSyncCallback) the handler running on the flusher returns - whenever it likes: it may wait for schema
+\* agreement or talk to an unreachable node, so this is an environment step
+EvHandlerDone(e) ==
+  /\ evPc[e] = "incallback"
+  /\ evPc' = [evPc EXCEPT ![e] = "select"]
+  /\ Release(e)
+  /\ DebounceEffect
+  /\ UNCHANGED <<evTimer, evQuit, evCb, nEvents, debPc>>
+  /\ UNCHANGED <<rdStopped, rdHasBc, rdBc, rdNow, rdQuit, rdDone, flPc, flCur, reqPc, nDebounce>>
+  /\ UNCHANGED <<ccVars, seVars>>
+
+\* handleNodeEvent on its own goroutine: a topology event asks for a debounced ring refresh
 EvCallback ==
   /\ evCb > 0
   /\ evCb' = evCb - 1
   /\ DebounceEffect
-  /\ UNCHANGED <<evPc, evTimer, evQuit, nEvents>>
+  /\ UNCHANGED <<evPc, evTimer, evQuit, nEvents, evMu, evQ, debPc>>
   /\ UNCHANGED <<rdStopped, rdHasBc, rdBc, rdNow, rdQuit, rdDone, flPc, flCur, reqPc, nDebounce>>
   /\ UNCHANGED <<ccVars, seVars>>
 
@@ -391,13 +455,45 @@ KCcConn(k) ==
 KEvStop(k, e, next) ==
   /\ kpc[k] = "ev_" \o e
   /\ IF evQuit[e] = "closed"
-     THEN /\ panicked' = TRUE /\ Goto(k, next) /\ UNCHANGED <<evPc, evQuit>>
+     THEN /\ panicked' = TRUE /\ Goto(k, next) /\ UNCHANGED <<evPc, evQuit, evMu, evQ, evTimer>>
+     ELSE IF Defect_EvStopUnderLock
+     THEN \* e.mu.Lock(): take a free mutex or park behind its holder
+          \* (no hook separates Lock from the timer.Stop() that follows it: one step when the mutex is free)
+          /\ IF evMu[e] = "free"
+             THEN /\ evMu' = [evMu EXCEPT ![e] = "stop"] /\ UNCHANGED evQ
+                  /\ evTimer' = [evTimer EXCEPT ![e] = IF @ = "armed" THEN "off" ELSE @]
+                  /\ Goto(k, "evs_" \o e)
+             ELSE /\ evQ' = [evQ EXCEPT ![e] = Append(@, "stop")] /\ UNCHANGED <<evMu, evTimer>>
+                  /\ Goto(k, "evl_" \o e)
+          /\ UNCHANGED <<evPc, evQuit, panicked>>
      ELSE /\ evPc[e] = "select"
           /\ evPc' = [evPc EXCEPT ![e] = "exited"]
           /\ evQuit' = [evQuit EXCEPT ![e] = "closed"]
           /\ Goto(k, next)
-          /\ UNCHANGED panicked
-  /\ UNCHANGED <<evTimer, evCb, nEvents>>
+          /\ UNCHANGED <<panicked, evMu, evQ, evTimer>>
+  /\ UNCHANGED <<evCb, nEvents, debPc>>
+  /\ UNCHANGED <<isClosing, isClosed, poolsClosed, tracked, stray, ctxCancelled, nAddHost, qres>>
+  /\ UNCHANGED <<rdVars, ccVars>>
+
+\* (Defect_EvStopUnderLock) ... defer Unlock; timer.Stop(), once the mutex is owned
+KEvStopLocked(k, e) ==
+  /\ kpc[k] = "evl_" \o e
+  /\ evMu[e] = "stop"
+  /\ evTimer' = [evTimer EXCEPT ![e] = IF @ = "armed" THEN "off" ELSE @]
+  /\ Goto(k, "evs_" \o e)
+  /\ UNCHANGED <<evPc, evQuit, evCb, nEvents, evMu, evQ, debPc, panicked>>
+  /\ UNCHANGED <<isClosing, isClosed, poolsClosed, tracked, stray, ctxCancelled, nAddHost, qres>>
+  /\ UNCHANGED <<rdVars, ccVars>>
+
+\* (Defect_EvStopUnderLock) the quit hand-off while e.mu is held
+KEvStopSend(k, e, next) ==
+  /\ kpc[k] = "evs_" \o e
+  /\ evPc[e] = "select"
+  /\ evPc' = [evPc EXCEPT ![e] = "exited"]
+  /\ evQuit' = [evQuit EXCEPT ![e] = "closed"]
+  /\ Release(e)
+  /\ Goto(k, next)
+  /\ UNCHANGED <<evTimer, evCb, nEvents, debPc, panicked>>
   /\ UNCHANGED <<isClosing, isClosed, poolsClosed, tracked, stray, ctxCancelled, nAddHost, qres>>
   /\ UNCHANGED <<rdVars, ccVars>>
 
@@ -460,21 +556,23 @@ Query ==
 CloseStep(k) ==
   \/ KFlag(k) \/ KPools(k) \/ KControl(k) \/ KCcSend(k) \/ KCcConn(k)
   \/ KEvStop(k, "node", "ev_schema") \/ KEvStop(k, "schema", "rs_mark")
+  \/ KEvStopSend(k, "node", "ev_schema") \/ KEvStopSend(k, "schema", "rs_mark")
+  \/ KEvStopLocked(k, "node") \/ KEvStopLocked(k, "schema")
   \/ RsMark(k) \/ RsSend(k) \/ RsWait(k) \/ KCancel(k) \/ KFin(k)
 
 \* the driver's own goroutines (each step eventually happens)
 SysNext ==
   \/ FlSelect \/ FlLock \/ FlRefreshDone \/ FlSelfAnswered
   \/ RcReconnect \/ RcInstall \/ RcAnswered
-  \/ \E e \in EvDeb : EvFlush(e)
-  \/ EvCallback
+  \/ \E e \in EvDeb : EvSelectTimer(e) \/ EvFlLock(e) \/ EvFlushLocked(e)
+  \/ EvCallback \/ EvDebUnlock
   \/ HbStart \/ HbProbe \/ HbReconnect \/ HbAnswered
   \/ \E k \in Closers : kpc[k] # "idle" /\ CloseStep(k)
 
 \* the environment (not obliged to act)
 EnvNext ==
   \/ \E r \in Requesters : RefreshNow(r)
-  \/ Debounce \/ TimerFire \/ EvArrive \/ \E e \in EvDeb : EvTimerFire(e)
+  \/ Debounce \/ TimerFire \/ EvDebLock \/ \E e \in EvDeb : EvTimerFire(e) \/ EvHandlerDone(e)
   \/ HbTimer \/ FlAddHost \/ FlCtlFail
   \/ \E k \in Closers : KFlag(k)
   \/ Query
@@ -485,16 +583,31 @@ Finished ==
   /\ flPc = "exited" \/ (flPc = "select" /\ rdNow = 0 /\ rdTimer # "fired" /\ rdQuit = "open")
   /\ hbPc \in {"select", "exited"} /\ rcPc \in {"idle", "done"}
   /\ \A r \in Reqs : reqPc[r] # "waiting"
-  /\ evCb = 0 /\ \A e \in EvDeb : evTimer[e] # "fired" \/ evPc[e] = "exited"
+  /\ evCb = 0 /\ debPc = "idle"
+  /\ \A e \in EvDeb : evMu[e] = "free" /\ evPc[e] \in {"select", "exited"} /\ (evTimer[e] # "fired" \/ evPc[e] = "exited")
 Idle == Finished /\ UNCHANGED vars
 
-Next == SysNext \/ EnvNext \/ Idle
+\* (EvEager) an idle flusher takes a fired timer at once: the sub-graph whose steps a harness can force without a
+\* hook between the flusher's select and its Lock (used to derive a reproducible schedule; the exhaustive passes
+\* run with EvEager = FALSE)
+EvUrgentStep(e) ==
+  \/ evPc[e] = "select" /\ evTimer[e] = "fired" /\ EvSelectTimer(e)
+  \/ evPc[e] = "woke" /\ EvFlLock(e)
+  \/ evPc[e] = "locking" /\ evMu[e] = "fl" /\ EvFlushLocked(e)
+EvUrgentStop(k, e) == kpc[k] = "evl_" \o e /\ evMu[e] = "stop" /\ KEvStopLocked(k, e)
+EvUrgent == EvEager /\ \E e \in EvDeb : \/ evPc[e] = "select" /\ evTimer[e] = "fired"
+                                        \/ evPc[e] = "woke"
+                                        \/ evPc[e] = "locking" /\ evMu[e] = "fl"
+                                        \/ \E k \in Closers : kpc[k] = "evl_" \o e /\ evMu[e] = "stop"
+Next == IF EvUrgent THEN \E e \in EvDeb : EvUrgentStep(e) \/ \E k \in Closers : EvUrgentStop(k, e)
+        ELSE SysNext \/ EnvNext \/ Idle
 
 \* one weak-fairness condition per goroutine (its steps are mutually exclusive by program counter)
 Fairness ==
   /\ WF_vars(FlSelect \/ FlLock \/ FlRefreshDone \/ FlSelfAnswered)
   /\ WF_vars(RcReconnect \/ RcInstall \/ RcAnswered)
-  /\ WF_vars((\E e \in EvDeb : EvFlush(e)) \/ EvCallback)
+  /\ WF_vars((\E e \in EvDeb : EvSelectTimer(e) \/ EvFlLock(e) \/ EvFlushLocked(e)) \/ EvCallback)
+  /\ WF_vars(EvDebUnlock)
   /\ WF_vars(HbStart \/ HbProbe \/ HbReconnect \/ HbAnswered)
   /\ \A k \in Closers : WF_vars(kpc[k] # "idle" /\ CloseStep(k))
 
@@ -534,6 +647,9 @@ RequesterAnswered == \A r \in Reqs : (reqPc[r] = "waiting") ~> (reqPc[r] \in {"a
 \* a request made once stop has marked the debouncer is refused at once (closed channel), never queued
 NoQueueAfterStop == rdStopped /\ flPc = "exited" => ~rdHasBc
 \* the background goroutines exit after Close
+\* Close does not wait for an event handler: with the handler's return left to the environment CloseReturns
+\* already says so.  The mutex of an event debouncer is never held for good:
+EvMutexReleased == \A e \in EvDeb : (evMu[e] \in {"deb", "stop"}) ~> (evMu[e] = "free")
 GoroutinesExit == isClosed ~> (flPc = "exited" /\ hbPc = "exited" /\ rcPc \in {"idle", "done"}
                                 /\ \A e \in EvDeb : evPc[e] = "exited")
 =============================================================================
